@@ -28,7 +28,7 @@ def far_program(rnd):
     nothing in the output but 2 MiB in the pessimistic layout"""
     L = progs.Ln
     lines = []
-    kind = rnd.randrange(6)
+    kind = rnd.randrange(8)
     n1 = rnd.choice([0, 1, 2, 511, 512, 513, 1022, 1023, 1024, 1025, 2046, 2047, 2048])
     nops = lambda n: [L('    addi x0 x0 0', 'instr', 'addi', [('r', 0), ('r', 0), ('i', 0)]) for _ in range(n)]
     if kind == 0:       # backward, pessimistically far
@@ -53,6 +53,22 @@ def far_program(rnd):
         lines += nops(rnd.choice([0, 1, 2, 3, 510, 511, 512, 513]))
         lines += [L('T:', 'label', 'T')]
         lines += nops(1)
+    elif kind in (6, 7):  # a transfer whose distance sits on the edge of the 32-bit form's reach: refused, or it lands
+        filler = lambda n: [L('    string ' + 'a' * n, 'string', 'string', ['a' * n])]
+        a, b = rnd.choice([(1, 2), (5, 0), (31, 31), (17, 8)])
+        if rnd.random() < 0.75:
+            nm = rnd.choice(['beq', 'bne', 'blt', 'bge', 'bltu', 'bgeu'])
+            t = L('    %s x%d, x%d, T' % (nm, a, b), 'branch', nm, [a, b], 'T')
+            dist = rnd.choice([4094, 4096, 4098, 4092, -4096, -4098, -4094, -4100])
+        else:
+            nm, rd = rnd.choice([('jal', 1), ('jal', 5), ('j', 0)])
+            t = L('    jal x%d, T' % rd, 'jal', 'jal', [rd], 'T') if nm == 'jal' else L('    j T', 'pjump', 'j', [], 'T')
+            dist = rnd.choice([(1 << 20) - 2, 1 << 20, (1 << 20) + 2, -(1 << 20), -(1 << 20) - 2, -(1 << 20) + 2])
+        pre = nops(rnd.randrange(0, 3))
+        if dist > 0:
+            lines += pre + [t] + filler(dist - 4) + [L('T:', 'label', 'T')] + nops(1)
+        else:
+            lines += pre + [L('T:', 'label', 'T')] + filler(-dist) + [t] + nops(1)
     elif kind in (4, 5):  # really far, with the low part of the offset exactly 0 / 0x800 / next to them
         nm = rnd.choice(['call', 'tail'])
         nb = rnd.randrange(1, 4)
